@@ -115,7 +115,15 @@ def coq_make(targets, jobs=8, timeout=1500):
     return BuildResult(False, out, excerpt=out[-1500:])
 
 
-ALLOWED_AXIOMS = set()     # nothing beyond kernel primitives is expected
+# Axioms declared by the standard library itself that theorems may depend on (each is named in
+# DESIGN.md section 9); anything else in a Print Assumptions list fails the check.
+_STDLIB_AXIOMS = ["ClassicalDedekindReals.sig_not_dec", "ClassicalDedekindReals.sig_forall_dec", "Classical_Prop.classic",
+                  "FunctionalExtensionality.functional_extensionality_dep",
+                  "FloatAxioms.mul_spec", "FloatAxioms.div_spec", "FloatAxioms.eqb_spec", "FloatAxioms.abs_spec",
+                  "FloatAxioms.SF2Prim_Prim2SF", "FloatAxioms.Prim2SF_valid", "FloatAxioms.Prim2SF_SF2Prim"]
+ALLOWED_AXIOMS = set(_STDLIB_AXIOMS) | {a.split(".")[-1] for a in _STDLIB_AXIOMS}
+# per property: which of them are expected at all (others are flagged even though they are stdlib axioms)
+AXIOMS_BY_PROPERTY = {"C18": ALLOWED_AXIOMS}
 
 PRIMITIVE_PREFIXES = ("PrimFloat.", "Uint63.", "PrimInt63.", "Float64", "Int63", "FloatOps", "PrimArray")
 
@@ -134,11 +142,14 @@ def parse_assumptions(output):
             cur = []
             blocks.append(cur)
         elif cur is not None:
-            m = re.match(r"^([A-Za-z_][A-Za-z0-9_.']*)\s*:", line)
+            # an entry is `name : type` or, for long types, `name` alone followed by indented lines
+            m = re.match(r"^([A-Za-z_][A-Za-z0-9_.']*)\s*(:|$)", line)
             if m:
                 cur.append(m.group(1))
-            elif line and not line.startswith(" "):
-                cur = None
+            elif line.startswith(" ") or line.startswith("\t"):
+                pass                    # continuation of a type
+            else:
+                cur = None              # blank line or other output ends the block
     return blocks
 
 
@@ -164,7 +175,8 @@ def check_props(pid, timeout=1500):
         return res
     ok = not bad
     for n, b in zip(names, blocks):
-        extra = [a for a in b if not a.startswith(PRIMITIVE_PREFIXES) and a not in ALLOWED_AXIOMS]
+        allowed = AXIOMS_BY_PROPERTY.get(pid, set())
+        extra = [a for a in b if not a.startswith(PRIMITIVE_PREFIXES) and a not in allowed]
         res["obligations"].append({"theorem": n, "assumptions": b, "disallowed": extra})
         if extra:
             ok = False
@@ -312,6 +324,10 @@ class Ctx:
         shutil.rmtree(self.work, ignore_errors=True)
         os.makedirs(self.work, exist_ok=True)
         self.known = load_known(pid)
+        # checks of /repo may run concurrently (same generated files); a self-test run against a scratch
+        # copy regenerates coq/gen from another tree and therefore excludes every other check while it runs
+        self._repolock = open(os.path.join(COQ, ".repo.lock"), "w")
+        fcntl.flock(self._repolock, fcntl.LOCK_SH if os.path.abspath(REPO) == "/repo" else fcntl.LOCK_EX)
         # step 1 of every check: regenerate every generated Coq file from the current tree
         import gen_all
         with BuildLock():
@@ -377,6 +393,15 @@ class Ctx:
         open(os.path.join(evdir, f"{self.pid}.json"), "w").write(
             json.dumps(ev, indent=1, sort_keys=True, default=str) + "\n")
         shutil.rmtree(self.work, ignore_errors=True)
+        if os.path.abspath(REPO) != "/repo":
+            # leave the generated files describing /repo again before anybody else proceeds
+            try:
+                subprocess.run([PY, os.path.join(HARNESS, "gen_all.py")], env=dict(os.environ, VERIF_REPO="/repo"),
+                               stdout=subprocess.DEVNULL, stderr=subprocess.DEVNULL, timeout=600)
+            except Exception:
+                pass
+        fcntl.flock(self._repolock, fcntl.LOCK_UN)
+        self._repolock.close()
         return 1 if self.violations else 0
 
 
